@@ -426,10 +426,16 @@ def check_property(prop, tier):
     if merged["evaluations"] == 0:
         log("INCONCLUSIVE: no cases were evaluated")
         return 2
-    if merged["extra"].get("harness_errors", 0) > 0:
+    herr = merged["extra"].get("harness_errors", 0)
+    if herr > max(3, merged["evaluations"] // 200):
         log("INCONCLUSIVE: %d case(s) could not be run because of trouble in the rig itself (see HARNESS-ERROR lines in %s)"
-            % (merged["extra"]["harness_errors"], os.path.join(WORK, "out", prop)))
+            % (herr, os.path.join(WORK, "out", prop)))
         return 2
+    if herr > 0:
+        # a handful of cases lost to the rig (a capture socket that dropped packets on a busy machine, a port taken
+        # between picking and binding) do not make the other cases inconclusive; they are counted in the evidence
+        log("note: %d of %d case(s) could not be run because of trouble in the rig itself (counted as harness_errors in the evidence, not as evaluated)"
+            % (herr, merged["evaluations"]))
     log("%s %s: held on %d cases (%d distinct non-trivial) in %.1fs" %
         (prop, tier, merged["evaluations"], len(merged["nt"]), wall))
     return 0
